@@ -308,7 +308,7 @@ def run_win_impl(case, want_cur=False):
 # downloads beyond the client's credit (2**24 + 65535 per connection and per stream)
 # ------------------------------------------------------------------------------------------------------------
 
-def run_big_download(total, frame=16384, pad=None, abandon_first=0):
+def run_big_download(total, frame=16384, pad=None, abandon_first=0, abandon_many=None):
     """One response body of `total` bytes; the server sends a DATA frame whenever the windows allow and stops when they
     do not (then only the client's WINDOW_UPDATE can continue the transfer).  With abandon_first > 0, a first response of that
     size is closed unread before the real download starts on the same connection.
@@ -384,6 +384,14 @@ def run_big_download(total, frame=16384, pad=None, abandon_first=0):
             if abandon_first:
                 with pool.stream("GET", f"https://o.example/a?n={abandon_first}") as r:
                     pass        # closed without reading the body
+            if abandon_many:
+                # many small responses, each *completely received* (END_STREAM included, in the same read as its head) and closed unread
+                k = 0
+                for count, size in abandon_many:
+                    for _ in range(count):
+                        k += 1
+                        with pool.stream("GET", f"https://o.example/m{k}?n={size}") as r:
+                            pass
             with pool.stream("GET", f"https://o.example/d?n={total}") as r:
                 for part in r.iter_stream():
                     got += len(part)
